@@ -7,10 +7,21 @@
    (every line is non-empty and contains a newline at most as its last character: what readline() returns), and
    the hand model is run on [map toks raw], [toks] being exactly the tokenisation the source applies.
    [toks_join] shows that for a line that is the join by single blanks or tabs of blank-, tab- and newline-free
-   tokens, followed by a newline or not, [toks] gives these tokens back (the lines of Model/JetscapeDoc.v jrender). *)
+   tokens, followed by a newline or not, [toks] gives these tokens back (the lines of Model/JetscapeDoc.v jrender).
+
+   Where the hand model and the source differ (each stated by a theorem or excluded by a named hypothesis):
+   - header scan: jscan stops at the first count line it cannot read, the source collects all count lines first
+     (IndexError for a short one) and converts afterwards (ValueError): [source_set_num_output_per_event];
+   - a line with '#' and 'sigmaGen' that is not the last line: the source keeps appending particles to the list object
+     it has already put into particle_list (hypothesis [trailer_last]);
+   - get_sigmaGen splits at every whitespace character, the hand model at blanks and tabs (hypothesis [plain_ws]);
+   - a one-line file makes get_last_line fail with OSError, which jload does not model
+     ([source_get_last_line_one_line]; the other theorems take a file of at least two lines);
+   - the shape of the count array (1-D empty after every event was dropped by a filter) is not in the hand model's
+     j_counts_2d (constantly true): the theorems compare the rows ([arr_rows]). *)
 From Coq Require Import List String Ascii ZArith QArith Bool Arith Lia.
-From SX Require Import Lib.Strs Lib.StrLemmas Lib.Split Model.Oscar Model.Jetscape Model.JetscapeLoaderRt
-     Gen.GenJetscapeLoader.
+From SX Require Import Lib.Strs Lib.StrLemmas Lib.Split Model.Oscar Model.Jetscape Model.JetscapeDoc Model.JetscapeLoaderRt
+     Gen.GenJetscapeLoader Proofs.C02_JetscapeExample.
 Import ListNotations.
 Local Open Scope string_scope.
 
@@ -238,6 +249,24 @@ Proof.
     + rewrite (zrange_from0 a) by lia. rewrite skip_loop2_sum.
       destruct (jsum _ _ _) as [r|e]; cbn [bind]; [f_equal; lia|reflexivity].
 Qed.
+
+(* a line with '#' and 'sigmaGen' is the last line (otherwise the list appended at that line would be changed in place
+   by a later particle line while it sits inside particle_list: the runtime abstains there) *)
+Fixpoint trailer_last (raw : list string) : Prop :=
+  match raw with
+  | [] => True
+  | l :: t => (has "#" (toks l) && has "sigmaGen" (toks l) = true -> t = []) /\ trailer_last t
+  end.
+Lemma trailer_last_skipn n : forall raw, trailer_last raw -> trailer_last (skipn n raw).
+Proof. induction n as [|n IH]; intros raw H; [exact H|]. destruct raw; [exact H|]. cbn. apply IH. apply H. Qed.
+Lemma trailer_last_of_forall : forall raw,
+  Forall (fun l => has "#" (toks l) && has "sigmaGen" (toks l) = false) (removelast raw) -> trailer_last raw.
+Proof.
+  induction raw as [|l t IH]; intros H; [exact I|]. destruct t as [|l' t']; [cbn; tauto|].
+  change (removelast (l :: l' :: t')) with (l :: removelast (l' :: t')) in H. inversion H as [|? ? Hl Ht]; subst.
+  split; [rewrite Hl; discriminate|exact (IH Ht)].
+Qed.
+
 
 (* ================================================================================================ the methods *)
 Section Src.
@@ -543,18 +572,21 @@ Section Src.
   Lemma dec_labels_all r k : (List.length r <= k)%nat -> dec_labels_from k r = r.
   Proof. intros H. unfold dec_labels_from. rewrite firstn_all2, skipn_all2 by lia. cbn. apply app_nil_r. Qed.
 
+  (* [al]: the list held by `data` also sits inside particle_list (the translator's alias flag: the runtime has value
+     semantics for lists and abstains when such a list is changed in place) *)
   Definition step_ok (flt : option (list particle -> list particle)) (sel : selector) (first : bool) (l : string)
              (raw : list string) (self : jself) pl dat c
-             (r : result (ctl (jself * list (list particle) * list particle * Z * list string))) : Prop :=
+             (r : result (ctl (jself * list (list particle) * list particle * bool * Z * list string))) : Prop :=
     match r with
-    | Ok (Next (self', pl', dat', c', raw')) =>
+    | Ok (Next (self', pl', dat', al', c', raw')) =>
       jstep flt sel first (toks l) (st_of self pl dat c) = Ok (st_of self' pl' dat' c')
       /\ raw' = raw /\ same_but_counts self self'
+      /\ (al' = true -> has "#" (toks l) && has "sigmaGen" (toks l) = true)
     | Ok (Break _) => False
     | Err e => jstep flt sel first (toks l) (st_of self pl dat c) = Err e
     end.
 
-  Lemma close_ok flt sel self pl dat c (tail : list particle -> list particle) (raw : list string) :
+  Lemma close_ok flt sel self pl dat c (tail : list particle -> list particle) (tailf : bool -> bool) (raw : list string) :
     flt_rel (optional_arguments_ self) flt ->
     match
      (pat <-
@@ -582,17 +614,18 @@ Section Src.
               t581 <- arr_sub_col_from (num_output_per_event_ (set_num_output_per_event_ self t577)) (zlen pl) 0 1;;
               Ok (set_num_output_per_event_ (set_num_output_per_event_ self t577) t581)
              else Ok (set_num_output_per_event_ self t577));;
-            Ok self0);; Ok self0);; Ok (self0, t565)
-       else Ok (self, dat));;
-      (let '(self0, v_data) := pat in
-        pat0 <- (if negb (zlen v_data =? 0)%Z || (zlen dat =? 0)%Z then Ok ((pl ++ [v_data])%list, c) else Ok (pl, (c + 1)%Z));;
-        (let '(v_particle_list, v_cut_events) := pat0 in
-          Ok (Next (self0, v_particle_list, tail v_data, v_cut_events, raw)))))
+            Ok self0);; Ok self0);; Ok (self0, t565, false)
+       else Ok (self, dat, false));;
+      (let '(self0, v_data, v_al_data) := pat in
+        pat0 <- (if negb (zlen v_data =? 0)%Z || (zlen dat =? 0)%Z then Ok ((pl ++ [v_data])%list, true, c)
+                 else Ok (pl, v_al_data, (c + 1)%Z));;
+        (let '(v_particle_list, v_al_data0, v_cut_events) := pat0 in
+          Ok (Next (self0, v_particle_list, tail v_data, tailf v_al_data0, v_cut_events, raw)))))
     with
-    | Ok (Next (self', pl', dat', c', raw')) =>
+    | Ok (Next (self', pl', dat', al', c', raw')) =>
       exists st', jclose flt (sel_first sel) (st_of self pl dat c) = Ok st'
         /\ plist st' = pl' /\ tail (data st') = dat' /\ counts st' = arr_rows (num_output_per_event_ self') /\ cut st' = c'
-        /\ raw' = raw /\ same_but_counts self self'
+        /\ raw' = raw /\ same_but_counts self self' /\ (al' = tailf true \/ al' = tailf false)
     | Ok (Break _) => False
     | Err e => jclose flt (sel_first sel) (st_of self pl dat c) = Err e
     end.
@@ -609,22 +642,22 @@ Section Src.
       + rewrite arr_set_row_spec. change (zlen (f dat)) with (Z.of_nat (List.length (f dat))).
         destruct (set_row (List.length pl) _ (arr_rows (num_output_per_event_ self))) as [r|e]; cbn [bind]; [|reflexivity].
         rewrite C. cbn [bind].
-        eexists. split; [reflexivity|]. cbn [plist data counts cut]. rewrite SE. repeat split; try apply SS.
+        eexists. split; [reflexivity|]. cbn [plist data counts cut]. rewrite SE. repeat split; try apply SS; auto.
       + rewrite np_delete_row_spec.
         destruct (List.length pl <? List.length (arr_rows (num_output_per_event_ self)))%nat; cbn [bind]; [|reflexivity].
         cbn [np_atleast_2d bind]. rewrite !SE, !ST.
         set (r' := delete_row (List.length pl) (arr_rows (num_output_per_event_ self))).
         cbn [arr_shape0 arr_len]. rewrite zlen_eqb0.
         destruct r' as [|x r2] eqn:R; cbn [List.length Nat.eqb bind].
-        * rewrite C. cbn [bind]. eexists. split; [reflexivity|]. cbn [plist data counts cut]. rewrite SE. repeat split; try apply SS.
+        * rewrite C. cbn [bind]. eexists. split; [reflexivity|]. cbn [plist data counts cut]. rewrite SE. repeat split; try apply SS; auto.
           unfold dec_labels_from. destruct (List.length pl); reflexivity.
         * rewrite <- R. rewrite arr_sub_col_spec.
           destruct (Z.ltb_spec (Z.of_nat (List.length pl)) (zlen r')) as [L|L]; cbn [bind]; rewrite ?ST, C; cbn [bind];
-            (eexists; split; [reflexivity|]; cbn [plist data counts cut]; rewrite SE; repeat split; try apply SS).
+            (eexists; split; [reflexivity|]; cbn [plist data counts cut]; rewrite SE; repeat split; try apply SS; auto).
           cbn [arr_rows]. apply dec_labels_all. unfold zlen in L. lia.
     - rewrite F. cbn [bind].
       destruct (negb (zlen dat =? 0)%Z || (zlen dat =? 0)%Z); cbn [bind];
-        (eexists; split; [reflexivity|]; cbn [plist data counts cut]; repeat split; try apply same_refl).
+        (eexists; split; [reflexivity|]; cbn [plist data counts cut]; repeat split; try apply same_refl; auto).
   Qed.
 
   Lemma same_kw s s' : same_but_counts s s' -> optional_arguments_ s' = optional_arguments_ s.
@@ -640,7 +673,7 @@ Section Src.
   Lemma step_spec flt sel : forall i l (raw : list string) self pl dat c,
     kw_sel (optional_arguments_ self) sel -> flt_rel (optional_arguments_ self) flt -> line_ok l ->
     step_ok flt sel (i =? 0)%Z l raw self pl dat c
-            (LOOP1 (optional_arguments_ self) (VInt (sel_first sel)) (self, pl, dat, c, l :: raw) i).
+            (LOOP1 (optional_arguments_ self) (VInt (sel_first sel)) (self, pl, dat, false, c, l :: raw) i).
   Proof.
     intros i l raw self pl dat c K F Hl.
     unfold gen_set_particle_list_loop1, step_ok, jstep. cbn [rt_readline]. rewrite (line_ok_truthy l Hl). cbn [negb].
@@ -649,9 +682,9 @@ Section Src.
             (contains_toks "weight" l pat_weight Hl), (contains_toks "Event" l pat_Event Hl).
     destruct (has "#" (toks l) && has "sigmaGen" (toks l)).
     { cbv zeta. unfold dict_mem, dict_get.
-      pose proof (close_ok flt sel self pl dat c (fun d => d) raw F) as CL. cbv beta in CL.
-      match type of CL with match ?X with _ => _ end => destruct X as [[[[[[s' pl'] d'] c'] r']|?]|e] end; [|exact CL|exact CL].
-      destruct CL as (st' & J & E1 & E2 & E3 & E4 & E5 & E6). rewrite J. split; [|split; assumption].
+      pose proof (close_ok flt sel self pl dat c (fun d => d) (fun b => b) raw F) as CL. cbv beta in CL.
+      match type of CL with match ?X with _ => _ end => destruct X as [[[[[[[s' pl'] d'] al'] c'] r']|?]|e] end; [|exact CL|exact CL].
+      destruct CL as (st' & J & E1 & E2 & E3 & E4 & E5 & E6 & E7). rewrite J. split; [|split; [assumption|split; [assumption|reflexivity]]].
       f_equal. apply lstate_eta; assumption. }
     destruct ((i =? 0)%Z && negb (has "#" (toks l)) && negb (has "weight" (toks l))); [reflexivity|].
     destruct (has "Event" (toks l) && has "weight" (toks l)).
@@ -680,47 +713,50 @@ Section Src.
       change 2%Z with (Z.of_nat 2). rewrite list_get_nat.
       destruct (nth_error (toks l) 2) as [e|]; cbn [bind]; [|reflexivity].
       unfold str_to_int, zint. destruct (tok_int e) as [ev|]; cbn [option_map bind]; [|reflexivity].
-      destruct (to_Z ev =? first_header sel)%Z; [split; [reflexivity|split; [reflexivity|apply same_refl]]|].
-      pose proof (close_ok flt sel self pl dat c (fun _ => []) raw F) as CL. cbv beta in CL.
-      match type of CL with match ?X with _ => _ end => destruct X as [[[[[[s' pl'] d'] c'] r']|?]|e0] end;
+      destruct (to_Z ev =? first_header sel)%Z; [split; [reflexivity|split; [reflexivity|split; [apply same_refl|discriminate]]]|].
+      pose proof (close_ok flt sel self pl dat c (fun _ => []) (fun _ => false) raw F) as CL. cbv beta in CL.
+      match type of CL with match ?X with _ => _ end => destruct X as [[[[[[[s' pl'] d'] al'] c'] r']|?]|e0] end;
         [|exact CL|rewrite CL; reflexivity].
-      destruct CL as (st' & J & E1 & E2 & E3 & E4 & E5 & E6). rewrite J. cbn [bind]. split; [|split; assumption].
+      destruct CL as (st' & J & E1 & E2 & E3 & E4 & E5 & E6 & E7). rewrite J. cbn [bind].
+      split; [|split; [assumption|split; [assumption|destruct E7 as [-> | ->]; discriminate]]].
       unfold st_of. subst. rewrite E3. reflexivity. }
     cbv zeta. unfold mkp. cbn [String.eqb Ascii.eqb Bool.eqb].
     destruct (MKJ (toks l)) as [p|e]; cbn [bind]; [|reflexivity].
-    split; [reflexivity|split; [reflexivity|apply same_refl]].
+    split; [reflexivity|split; [reflexivity|split; [apply same_refl|discriminate]]].
   Qed.
 
   Definition loop_ok (flt : option (list particle -> list particle)) (sel : selector) (first : bool) (n : nat)
              (raw : list string) (self : jself) pl dat c
-             (r : result (jself * list (list particle) * list particle * Z * list string)) : Prop :=
+             (r : result (jself * list (list particle) * list particle * bool * Z * list string)) : Prop :=
     match r with
-    | Ok (self', pl', dat', c', _) =>
+    | Ok (self', pl', dat', _, c', _) =>
       JREAD flt sel first n (map toks raw) (st_of self pl dat c) = Ok (st_of self' pl' dat' c')
       /\ same_but_counts self self'
     | Err e => JREAD flt sel first n (map toks raw) (st_of self pl dat c) = Err e
     end.
 
-  Lemma loop_spec flt sel kw : forall n i0 (raw : list string) self pl dat c,
+  Lemma loop_spec flt sel kw : forall n i0 (raw : list string) self pl dat al c,
     optional_arguments_ self = kw -> kw_sel kw sel -> flt_rel kw flt -> lines_ok raw -> (0 <= i0)%Z ->
+    trailer_last raw -> (al = true -> raw = []) ->
     loop_ok flt sel (i0 =? 0)%Z n raw self pl dat c
-            (loopC (LOOP1 kw (VInt (sel_first sel))) (zrange i0 (i0 + Z.of_nat n)) (self, pl, dat, c, raw)).
+            (loopC (LOOP1 kw (VInt (sel_first sel))) (zrange i0 (i0 + Z.of_nat n)) (self, pl, dat, al, c, raw)).
   Proof.
-    induction n as [|n IH]; intros i0 raw self pl dat c Hkw K F Hok Hi.
+    induction n as [|n IH]; intros i0 raw self pl dat al c Hkw K F Hok Hi TL AL.
     - rewrite zrange_nil by lia. cbn. split; [reflexivity|apply same_refl].
     - rewrite zrange_cons by lia. cbn [loopC]. destruct raw as [|l t].
       + unfold gen_set_particle_list_loop1 at 1. cbn. reflexivity.
       + inversion Hok as [|? ? Hl Ht]; subst kw.
+        assert (al = false) by (destruct al; [discriminate (AL eq_refl)|reflexivity]). subst al.
         pose proof (step_spec flt sel i0 l t self pl dat c K F Hl) as ST. unfold step_ok in ST.
         unfold loop_ok. cbn [map]. rewrite jread_step.
-        destruct (LOOP1 _ _ _ i0) as [[[[[[s' pl'] d'] c'] r']|?]|e]; [|contradiction|rewrite ST; reflexivity].
-        destruct ST as (J & -> & SB). rewrite J. cbn [bind].
+        destruct (LOOP1 _ _ _ i0) as [[[[[[[s' pl'] d'] al'] c'] r']|?]|e]; [|contradiction|rewrite ST; reflexivity].
+        destruct ST as (J & -> & SB & AT). rewrite J. cbn [bind]. destruct TL as [TL1 TL2].
         replace (i0 + Z.of_nat (S n))%Z with (i0 + 1 + Z.of_nat n)%Z by lia.
         pose proof (same_kw _ _ SB) as KW.
-        specialize (IH (i0 + 1)%Z t s' pl' d' c' KW K F Ht ltac:(lia)).
+        specialize (IH (i0 + 1)%Z t s' pl' d' al' c' KW K F Ht ltac:(lia) TL2 (fun E => TL1 (AT E))).
         replace (i0 + 1 =? 0)%Z with false in IH by (symmetry; apply Z.eqb_neq; lia).
         unfold loop_ok in IH.
-        destruct (loopC _ _ _) as [[[[[s2 pl2] d2] c2] r2]|e]; [|exact IH].
+        destruct (loopC _ _ _) as [[[[[[s2 pl2] d2] al2] c2] r2]|e]; [|exact IH].
         destruct IH as [J2 SB2]. split; [exact J2|exact (same_trans _ _ _ SB SB2)].
   Qed.
 
@@ -827,7 +863,7 @@ Section Src.
   Qed.
 
   Theorem source_set_particle_list self raw sel flt :
-    lines_ok raw -> fs (PATH_JETSCAPE_ self) = raw ->
+    lines_ok raw -> trailer_last raw -> fs (PATH_JETSCAPE_ self) = raw ->
     kw_sel (optional_arguments_ self) sel -> flt_rel (optional_arguments_ self) flt ->
     arr_std (num_output_per_event_ self) ->
     match gen_set_particle_list fs zint mkp o_apply self (optional_arguments_ self) with
@@ -838,7 +874,7 @@ Section Src.
     | Err e => jload_tail flt (map toks raw) (arr_rows (num_output_per_event_ self)) (num_events_ self) sel = Err e
     end.
   Proof.
-    intros Hok Hfs K F S. unfold gen_set_particle_list, jload_tail. cbv zeta.
+    intros Hok TL Hfs K F S. unfold gen_set_particle_list, jload_tail. cbv zeta.
     rewrite (source_get_num_read_lines self sel K S), Hfs. unfold rt_open_text.
     rewrite (source_skip_lines self sel raw K).
     destruct (jnum_read sel _) as [nr|e1] eqn:NR; cbn [bind].
@@ -851,10 +887,11 @@ Section Src.
     assert (R1 : arr_rows (num_output_per_event_ self1) = sel_counts sel (arr_rows (num_output_per_event_ self))).
     { subst self1. destruct sel; [reflexivity| |]; rewrite <- (sel_arr_rows _ _ (kw_sel_ok _ _ K)); destruct self; reflexivity. }
     rewrite zrange_nat.
-    pose proof (loop_spec flt sel (optional_arguments_ self) (Z.to_nat nr) 0 (skipn (Z.to_nat ns) raw) self1 [] [] 0
-                          (same_kw _ _ SB1) K F (lines_ok_skipn _ _ Hok) ltac:(lia)) as L.
+    pose proof (loop_spec flt sel (optional_arguments_ self) (Z.to_nat nr) 0 (skipn (Z.to_nat ns) raw) self1 [] [] false 0
+                          (same_kw _ _ SB1) K F (lines_ok_skipn _ _ Hok) ltac:(lia) (trailer_last_skipn _ _ TL)
+                          ltac:(discriminate)) as L.
     unfold loop_ok in L. cbn [Z.eqb] in L. unfold st_of in L. rewrite R1 in L. rewrite <- skipn_map' in L.
-    destruct (loopC _ _ _) as [[[[[s2 pl2] d2] c2] r2]|e]; cbn [bind]; [|rewrite L; reflexivity].
+    destruct (loopC _ _ _) as [[[[[[s2 pl2] d2] al2] c2] r2]|e]; cbn [bind]; [|rewrite L; reflexivity].
     destruct L as [J SB2]. rewrite J. cbn [bind plist cut counts].
     pose proof (same_trans _ _ _ SB1 SB2) as SB. red in SB. clear SB1 SB2 R1 J self1.
     destruct self as [p pt pd oa ee a ne]. destruct s2 as [p2 pt2 pd2 oa2 ee2 a2 ne2].
@@ -956,4 +993,537 @@ Section Src.
         [rewrite PT; reflexivity|destruct (s' =? "parton")%string; cbn [bind as_str]; [rewrite PT; reflexivity|reflexivity]]
        |rewrite PT; reflexivity]).
   Qed.
+
+  Lemma check_events_sel kw sel : kw_sel kw sel -> check_events (assoc "events" kw) = Ok tt.
+  Proof.
+    destruct sel as [|k|a b]; cbn [kw_sel].
+    - intros ->. reflexivity.
+    - intros [-> H]. cbn. replace (k <? 0)%Z with false by (symmetry; apply Z.ltb_ge; lia). reflexivity.
+    - intros [-> H]. cbn [check_events forallb isinstance_int andb negb].
+      replace (a >? b)%Z with false by (symmetry; rewrite Z.gtb_ltb; apply Z.ltb_ge; lia).
+      replace (a <? 0)%Z with false by (symmetry; apply Z.ltb_ge; lia).
+      replace (b <? 0)%Z with false by (symmetry; apply Z.ltb_ge; lia). reflexivity.
+  Qed.
+  Lemma pat_defstr pt : pat_ok (defstr_of pt).
+  Proof. unfold defstr_of. destruct (pt =? "hadron")%string; [apply pat_N_hadrons|apply pat_N_partons]. Qed.
+  Lemma arr_of_std c : arr_std (arr_of c). Proof. destruct c; reflexivity. Qed.
+  Lemma arr_of_rows c : arr_rows (arr_of c) = c. Proof. destruct c; reflexivity. Qed.
+
+  (* load on a keyword dictionary that stands for a selector of the hand model: the part of jload between the
+     sigmaGen test of the constructor and get_sigmaGen *)
+  Definition jload_mid (flt : option (list particle -> list particle)) (file : list (list string)) (defstr : string)
+             (sel : selector) : result (list (list particle) * Z * list (Z * Z)) :=
+    cnts <- jscan tok_int defstr file ;; jload_tail flt file cnts (Z.of_nat (List.length cnts)) sel.
+
+  Theorem source_load_model self raw kw sel flt pt fuel :
+    lines_ok raw -> trailer_last raw -> fs (PATH_JETSCAPE_ self) = raw -> (List.length raw < fuel)%nat ->
+    forallb known_key (dict_keys kw) = true -> kw_sel kw sel -> flt_rel kw flt ->
+    check_ptype (assoc "particletype" kw) (particle_type_ self) = Ok pt ->
+    jscan tok_int (defstr_of pt) (map toks raw) <> Err ValueError ->
+    match gen_load fs zint zint mkp o_apply fuel self kw with
+    | Ok (self', (pl, nev, a, ends)) =>
+      jload_mid flt (map toks raw) (defstr_of pt) sel = Ok (pl, nev, arr_rows a)
+      /\ ends = [] /\ nev = num_events_ self' /\ a = num_output_per_event_ self'
+      /\ self' = JSelf (PATH_JETSCAPE_ self) pt (defstr_of pt) kw [] a nev
+    | Err e => jload_mid flt (map toks raw) (defstr_of pt) sel = Err e
+    end.
+  Proof.
+    intros Hok TL Hfs Hf KK K F PT NV. rewrite source_load, KK. cbn [negb].
+    rewrite (check_events_sel kw sel K), PT. cbn [bind]. cbv zeta.
+    set (self1 := set_particle_type_defining_string_ _ _).
+    assert (E1 : self1 = JSelf (PATH_JETSCAPE_ self) pt (defstr_of pt) kw [] (num_output_per_event_ self) (num_events_ self))
+      by (destruct self; reflexivity).
+    rewrite E1. clear E1 self1. set (s1 := JSelf _ _ _ _ _ _ _).
+    assert (H1 : gen_set_num_output_per_event fs zint fuel s1
+                 = match jscan tok_int (defstr_of pt) (map toks raw) with
+                   | Ok c => Ok (set_num_events_ (set_num_output_per_event_ s1 (arr_of c)) (zlen c), tt)
+                   | Err e => Err e
+                   end)
+      by (apply (source_set_num_output_per_event_eq s1 raw fuel Hok); [exact Hfs|exact Hf|apply pat_defstr|exact NV]).
+    rewrite H1. clear H1.
+    unfold jload_mid. destruct (jscan tok_int (defstr_of pt) (map toks raw)) as [c|e]; cbn [bind]; [|reflexivity].
+    unfold s1, set_num_events_, set_num_output_per_event_. clear s1.
+    cbn [set_num_output_per_event_ set_num_events_ PATH_JETSCAPE_ particle_type_ particle_type_defining_string_
+         optional_arguments_ event_end_lines_ num_output_per_event_ num_events_].
+    set (self2 := JSelf _ _ _ _ _ _ _).
+    pose proof (source_set_particle_list self2 raw sel flt Hok TL Hfs K F (arr_of_std c)) as SP.
+    change (optional_arguments_ self2) with kw in SP.
+    cbn [self2 num_output_per_event_ num_events_] in SP. rewrite arr_of_rows in SP.
+    destruct (gen_set_particle_list _ _ _ _ self2 kw) as [[s3 pl]|e]; cbn [bind]; [|exact SP].
+    destruct SP as [J E3]. unfold zlen in J. rewrite J. repeat split.
+    rewrite E3. reflexivity.
+  Qed.
+
+  (* ---- get_last_line --------------------------------------------------------------------------------------------------- *)
+  Lemma substring_00 s : substring 0 0 s = "". Proof. destruct s; reflexivity. Qed.
+  Lemma substring_app_skip a : forall b n m, substring (String.length a + n) m (a ++ b) = substring n m b.
+  Proof. induction a as [|c a IH]; intros b n m; [reflexivity|]. cbn. apply IH. Qed.
+  Lemma substring_all s : forall m, (String.length s <= m)%nat -> substring 0 m s = s.
+  Proof.
+    induction s as [|c s IH]; intros m H; [destruct m; reflexivity|].
+    destruct m as [|m]; [cbn in H; lia|]. cbn. rewrite IH by (cbn in H; lia). reflexivity.
+  Qed.
+  Lemma substring_get : forall k s c, get k s = Some c -> substring k 1 s = String c "".
+  Proof.
+    induction k as [|k IH]; intros s c H; destruct s as [|d s]; try discriminate H.
+    - cbn in H. inversion H; subst. cbn. rewrite substring_00. reflexivity.
+    - cbn in H. cbn. apply IH. exact H.
+  Qed.
+  Lemma get_app_l a : forall b k, (k < String.length a)%nat -> get k (a ++ b) = get k a.
+  Proof.
+    induction a as [|c a IH]; intros b k H; [cbn in H; lia|]. destruct k as [|k]; [reflexivity|].
+    cbn. apply IH. cbn in H. lia.
+  Qed.
+  Lemma get_lt s : forall k, (k < String.length s)%nat -> exists c, get k s = Some c /\ In c (chars s).
+  Proof.
+    induction s as [|d s IH]; intros k H; [cbn in H; lia|]. destruct k as [|k].
+    - exists d. split; [reflexivity|left; reflexivity].
+    - destruct (IH k ltac:(cbn in H; lia)) as (c & G & I). exists c. split; [exact G|right; exact I].
+  Qed.
+  Lemma slength_app a b : String.length (a ++ b) = (String.length a + String.length b)%nat.
+  Proof. induction a as [|c a IH]; [reflexivity|]. cbn. rewrite IH. reflexivity. Qed.
+  Lemma no_char_in c s x : no_char c s = true -> In x (chars s) -> x <> c.
+  Proof.
+    unfold no_char. rewrite forallb_forall. intros H I E. subst x. specialize (H c I).
+    rewrite Ascii.eqb_refl in H. discriminate H.
+  Qed.
+
+  (* the characters of a line before its last one are not newlines *)
+  Lemma line_ok_inner l : line_ok l -> forall j, (S j < String.length l)%nat -> exists c, get j l = Some c /\ c <> nl.
+  Proof.
+    intros (_ & b & Hb & [->| ->]) j H.
+    - rewrite slength_app in H. cbn in H. rewrite get_app_l by lia.
+      destruct (get_lt b j ltac:(lia)) as (c & G & I). exists c. split; [exact G|exact (no_char_in _ _ _ Hb I)].
+    - destruct (get_lt b j ltac:(lia)) as (c & G & I). exists c. split; [exact G|exact (no_char_in _ _ _ Hb I)].
+  Qed.
+
+  Lemma upto_nl_line l : line_ok l -> upto_nl l = l.
+  Proof.
+    intros (_ & b & Hb & H).
+    assert (U : forall t, no_char nl t = true -> upto_nl t = t /\ upto_nl (t ++ String nl "") = t ++ String nl "").
+    { induction t as [|c t IH]; intros Ht; [split; reflexivity|].
+      cbn in Ht. apply andb_true_iff in Ht. destruct Ht as [Hc Ht]. apply negb_true_iff in Hc.
+      destruct (IH Ht) as [I1 I2]. cbn [upto_nl append]. rewrite Hc, I1, I2. split; reflexivity. }
+    destruct (U b Hb) as [U1 U2]. destruct H as [->| ->]; assumption.
+  Qed.
+
+  Lemma back_loop (Q L : string) : forall k fuel, (k < fuel)%nat ->
+    (forall j, (j < k)%nat -> exists c, get j L = Some c /\ c <> nl) ->
+    whileC fuel gen_get_last_line_loop1 (Q ++ String nl L, Z.of_nat (String.length Q + k))
+    = Ok (Q ++ String nl L, Z.of_nat (String.length Q + 1)).
+  Proof.
+    induction k as [|k IH]; intros fuel Hf HL; (destruct fuel as [|fuel]; [lia|]).
+    - cbn [whileC]. unfold gen_get_last_line_loop1 at 1. unfold fb_read. cbn [fst snd].
+      rewrite Nat2Z.id. rewrite substring_app_skip. change (Z.to_nat 1) with 1%nat. cbn [substring].
+      rewrite substring_00. cbn [String.eqb Ascii.eqb Bool.eqb negb andb slen String.length].
+      f_equal. f_equal. unfold slen. cbn [String.length]. lia.
+    - cbn [whileC]. unfold gen_get_last_line_loop1 at 1. unfold fb_read. cbn [fst snd].
+      rewrite Nat2Z.id. rewrite substring_app_skip. change (Z.to_nat 1) with 1%nat. cbn [substring].
+      destruct (HL k ltac:(lia)) as (c & G & Hc). rewrite (substring_get k L c G).
+      assert (E : (String c "" =? String nl "")%string = false).
+      { cbn [String.eqb]. destruct (Ascii.eqb_spec c nl); [contradiction|reflexivity]. }
+      rewrite E. cbn [negb]. unfold slen. cbn [String.length]. unfold fb_seek. cbn [Z.eqb Pos.eqb fst snd].
+      replace (Z.of_nat (String.length Q + S k) + Z.of_nat 1 + -2 <? 0)%Z with false by (symmetry; apply Z.ltb_ge; lia).
+      cbn [bind]. replace (Z.of_nat (String.length Q + S k) + Z.of_nat 1 + -2)%Z with (Z.of_nat (String.length Q + k)) by lia.
+      apply IH; [lia|]. intros j Hj. apply HL. lia.
+  Qed.
+
+  Lemma concat_last : forall pre L, pre <> [] -> String.concat "" (pre ++ [L]) = String.concat "" pre ++ L.
+  Proof.
+    induction pre as [|x pre IH]; intros L H; [congruence|]. destruct pre as [|y pre]; [reflexivity|].
+    change (String.concat "" ((x :: y :: pre) ++ [L])) with (x ++ "" ++ String.concat "" ((y :: pre) ++ [L])).
+    rewrite IH by discriminate. cbn [String.concat append]. rewrite sapp_assoc. reflexivity.
+  Qed.
+  Definition ends_nl (l : string) : Prop := exists b, l = b ++ String nl "".
+  Lemma concat_ends_nl : forall pre, pre <> [] -> Forall ends_nl pre -> exists Q, String.concat "" pre = Q ++ String nl "".
+  Proof.
+    induction pre as [|x pre IH]; intros H F; [congruence|]. inversion F as [|? ? (b & ->) Fp]; subst.
+    destruct pre as [|y pre]; [exists b; reflexivity|].
+    destruct (IH ltac:(discriminate) Fp) as (Q & E). exists (b ++ String nl "" ++ Q).
+    change (String.concat "" ((b ++ String nl "") :: y :: pre)) with ((b ++ String nl "") ++ "" ++ String.concat "" (y :: pre)).
+    rewrite E. cbn [append]. rewrite !sapp_assoc. reflexivity.
+  Qed.
+
+  (* a file of at least two lines, all but possibly the last newline-terminated: the stripped last line *)
+  Theorem source_get_last_line path pre L fuel :
+    fs path = (pre ++ [L])%list -> pre <> [] -> Forall ends_nl pre -> line_ok L -> (String.length L < fuel)%nat ->
+    gen_get_last_line fs fuel path = Ok (py_strip L).
+  Proof.
+    intros Hfs Hpre Hnl HL Hf. unfold gen_get_last_line, rt_open_bin. rewrite Hfs, (concat_last pre L Hpre).
+    destruct (concat_ends_nl pre Hpre Hnl) as (Q & ->). rewrite sapp_assoc. cbn [append].
+    assert (LL : (1 <= String.length L)%nat) by (destruct HL as [N _]; destruct L; [congruence|cbn; lia]).
+    unfold fb_seek at 1. cbn [Z.eqb Pos.eqb fst snd]. unfold slen. rewrite slength_app. cbn [String.length].
+    replace (Z.of_nat (String.length Q + S (String.length L)) + -2 <? 0)%Z with false by (symmetry; apply Z.ltb_ge; lia).
+    cbn [bind].
+    replace (Z.of_nat (String.length Q + S (String.length L)) + -2)%Z
+      with (Z.of_nat (String.length Q + (String.length L - 1))) by lia.
+    rewrite (back_loop Q L (String.length L - 1) fuel ltac:(lia)).
+    2:{ intros j Hj. apply (line_ok_inner L HL). lia. }
+    cbn [bind]. unfold fb_readline. cbn [fst snd]. rewrite Nat2Z.id.
+    replace (String.length Q + 1)%nat with (String.length (Q ++ String nl "") + 0)%nat by (rewrite slength_app; cbn; lia).
+    replace (Q ++ String nl L) with ((Q ++ String nl "") ++ L) by (rewrite sapp_assoc; reflexivity).
+    rewrite substring_app_skip, substring_all by (rewrite !slength_app; cbn; lia).
+    rewrite (upto_nl_line L HL). reflexivity.
+  Qed.
+
+  (* a file that is one line: the backward seek fails (OSError) *)
+  Theorem source_get_last_line_one_line path L fuel :
+    fs path = [L] -> line_ok L -> (String.length L < fuel)%nat ->
+    gen_get_last_line fs fuel path = Err OtherError.
+  Proof.
+    intros Hfs HL Hf. unfold gen_get_last_line, rt_open_bin. rewrite Hfs. cbn [String.concat].
+    unfold fb_seek at 1. cbn [Z.eqb Pos.eqb fst snd]. unfold slen.
+    destruct (Nat.le_gt_cases (String.length L) 1) as [H1|H1].
+    - replace (Z.of_nat (String.length L) + -2 <? 0)%Z with true by (symmetry; apply Z.ltb_lt; lia). reflexivity.
+    - replace (Z.of_nat (String.length L) + -2 <? 0)%Z with false by (symmetry; apply Z.ltb_ge; lia). cbn [bind].
+      replace (Z.of_nat (String.length L) + -2)%Z with (Z.of_nat (String.length L - 2)) by lia.
+      assert (B : forall k fuel', (k < fuel')%nat -> (S k < String.length L)%nat ->
+                  whileC fuel' gen_get_last_line_loop1 (L, Z.of_nat k) = Err OtherError).
+      { induction k as [|k IH]; intros fuel' Hf' Hk; (destruct fuel' as [|fuel']; [lia|]);
+          cbn [whileC]; unfold gen_get_last_line_loop1 at 1; unfold fb_read; cbn [fst snd]; rewrite Nat2Z.id;
+          change (Z.to_nat 1) with 1%nat;
+          (match goal with |- context [substring ?k 1 L] =>
+             destruct (line_ok_inner L HL k ltac:(lia)) as (c & G & Hc); rewrite (substring_get k L c G) end);
+          (assert (E : (String c "" =? String nl "")%string = false)
+             by (cbn [String.eqb]; destruct (Ascii.eqb_spec c nl); [contradiction|reflexivity]));
+          rewrite E; cbn [negb]; unfold slen; cbn [String.length]; unfold fb_seek; cbn [Z.eqb Pos.eqb fst snd].
+        - reflexivity.
+        - replace (Z.of_nat (S k) + Z.of_nat 1 + -2 <? 0)%Z with false by (symmetry; apply Z.ltb_ge; lia).
+          cbn [bind]. replace (Z.of_nat (S k) + Z.of_nat 1 + -2)%Z with (Z.of_nat k) by lia.
+          apply IH; lia. }
+      rewrite (B (String.length L - 2)%nat fuel) by lia. reflexivity.
+  Qed.
+
+  (* ---- strip / split() -------------------------------------------------------------------------------------------------- *)
+  Definition ws_free (p : string) : Prop := forall c, In c (chars p) -> is_ws c = false.
+  Lemma prefix_ws_head p a t : ws_free p -> p <> "" -> is_ws a = true -> prefix p (String a t) = false.
+  Proof.
+    intros W N A. destruct p as [|c p]; [congruence|]. cbn. destruct (ascii_dec c a) as [->|]; [|reflexivity].
+    rewrite (W a (or_introl eq_refl)) in A. discriminate A.
+  Qed.
+  Lemma ws_free_tl c p : ws_free (String c p) -> ws_free p.
+  Proof. intros W x I. apply W. right. exact I. Qed.
+
+  Lemma contains_lstrip p : ws_free p -> p <> "" -> forall s, contains p (py_lstrip s) = contains p s.
+  Proof.
+    intros W N. induction s as [|a t IH]; [reflexivity|]. cbn [py_lstrip].
+    destruct (is_ws a) eqn:A; [|reflexivity]. rewrite IH. cbn [contains]. rewrite (prefix_ws_head p a t W N A). reflexivity.
+  Qed.
+  Lemma prefix_rstrip : forall t p, ws_free p -> prefix p (py_rstrip t) = prefix p t.
+  Proof.
+    induction t as [|a t IH]; intros p W; [reflexivity|]. cbn [py_rstrip].
+    destruct (is_ws a && (py_rstrip t =? "")%string) eqn:C.
+    - destruct p as [|c p]; [reflexivity|]. cbn. apply andb_true_iff in C. destruct C as [A _].
+      destruct (ascii_dec c a) as [->|]; [|reflexivity]. rewrite (W a (or_introl eq_refl)) in A. discriminate A.
+    - destruct p as [|c p]; [reflexivity|]. cbn. destruct (ascii_dec c a); [|reflexivity]. apply IH. exact (ws_free_tl _ _ W).
+  Qed.
+  Lemma contains_rstrip p : ws_free p -> p <> "" -> forall s, contains p (py_rstrip s) = contains p s.
+  Proof.
+    intros W N. induction s as [|a t IH]; [reflexivity|].
+    pose proof (prefix_rstrip (String a t) p W) as P. cbn [py_rstrip] in *.
+    destruct (is_ws a && (py_rstrip t =? "")%string) eqn:C.
+    - apply andb_true_iff in C. destruct C as [A R]. apply String.eqb_eq in R. rewrite R in IH.
+      cbn [contains]. rewrite (prefix_ws_head p a t W N A), <- IH. destruct p; [congruence|reflexivity].
+    - cbn [contains]. rewrite P, IH. reflexivity.
+  Qed.
+  Lemma contains_strip p s : ws_free p -> p <> "" -> contains p (py_strip s) = contains p s.
+  Proof. intros W N. unfold py_strip. rewrite (contains_lstrip p W N), (contains_rstrip p W N). reflexivity. Qed.
+
+  (* two lists of pieces with the same first piece and the same non-empty later pieces *)
+  Definition sp_eq (l1 l2 : list string) : Prop :=
+    hd "" l1 = hd "" l2 /\ filter str_truthy (tl l1) = filter str_truthy (tl l2).
+  Lemma split_pred_ne p s : split_pred p s <> [].
+  Proof. destruct s as [|a s]; cbn; [discriminate|]. destruct (p a); [discriminate|]. destruct (split_pred p s); discriminate. Qed.
+  Lemma sp_eq_filter l1 l2 : l1 <> [] -> l2 <> [] -> sp_eq l1 l2 -> filter str_truthy l1 = filter str_truthy l2.
+  Proof.
+    intros N1 N2 [H T]. destruct l1 as [|x l1]; [congruence|]. destruct l2 as [|y l2]; [congruence|].
+    cbn in *. subst y. rewrite T. reflexivity.
+  Qed.
+  Lemma sp_eq_cons p a x1 x2 : sp_eq (split_pred p x1) (split_pred p x2) ->
+    sp_eq (split_pred p (String a x1)) (split_pred p (String a x2)).
+  Proof.
+    intros E. pose proof (split_pred_ne p x1) as N1. pose proof (split_pred_ne p x2) as N2.
+    cbn [split_pred]. destruct (p a).
+    - split; [reflexivity|]. cbn [tl]. apply sp_eq_filter; assumption.
+    - destruct E as [H T]. destruct (split_pred p x1) as [|h1 t1]; [congruence|].
+      destruct (split_pred p x2) as [|h2 t2]; [congruence|]. cbn in *. subst h2. split; [reflexivity|exact T].
+  Qed.
+  Lemma sp_eq_refl l : sp_eq l l. Proof. split; reflexivity. Qed.
+
+  Lemma split_rstrip : forall s, sp_eq (split_pred is_ws (py_rstrip s)) (split_pred is_ws s).
+  Proof.
+    induction s as [|a t IH]; [apply sp_eq_refl|]. cbn [py_rstrip].
+    destruct (is_ws a && (py_rstrip t =? "")%string) eqn:C.
+    - apply andb_true_iff in C. destruct C as [A R]. apply String.eqb_eq in R. rewrite R in IH.
+      cbn [split_pred]. rewrite A. split; [reflexivity|]. cbn [tl filter].
+      pose proof (split_pred_ne is_ws t) as N. destruct IH as [H T].
+      destruct (split_pred is_ws t) as [|h ts]; [congruence|]. cbn in *. subst h. cbn. exact T.
+    - apply sp_eq_cons. exact IH.
+  Qed.
+  Lemma split_lstrip : forall s, filter str_truthy (split_pred is_ws (py_lstrip s)) = filter str_truthy (split_pred is_ws s).
+  Proof.
+    induction s as [|a t IH]; [reflexivity|]. cbn [py_lstrip]. destruct (is_ws a) eqn:A; [|reflexivity].
+    cbn [split_pred]. rewrite A. cbn. exact IH.
+  Qed.
+  Lemma split_strip s : py_split_ws (py_strip s) = py_split_ws s.
+  Proof.
+    unfold py_split_ws, py_strip. rewrite split_lstrip.
+    apply sp_eq_filter; [apply split_pred_ne|apply split_pred_ne|apply split_rstrip].
+  Qed.
+
+  (* no whitespace other than blank, tab, newline *)
+  Definition plain_ws (s : string) : Prop := forall c, In c (chars s) -> is_ws c = true -> c = sp \/ c = tab \/ c = nl.
+
+  Lemma split_plain : forall b, no_char nl b = true -> plain_ws b -> split_pred is_ws b = split_on sp (tab2sp b).
+  Proof.
+    induction b as [|a b IH]; intros Hn Hp; [reflexivity|].
+    cbn in Hn. apply andb_true_iff in Hn. destruct Hn as [Ha Hn]. apply negb_true_iff in Ha.
+    assert (Hp' : plain_ws b) by (intros c I; apply Hp; right; exact I).
+    rewrite tab2sp_cons. cbn [split_pred split_on]. rewrite (IH Hn Hp').
+    destruct (Ascii.eqb a tab) eqn:T.
+    - apply Ascii.eqb_eq in T. subst a. reflexivity.
+    - destruct (is_ws a) eqn:W.
+      + destruct (Hp a (or_introl eq_refl) W) as [->|[->| ->]]; [reflexivity|discriminate T|discriminate Ha].
+      + destruct (Ascii.eqb a sp) eqn:S; [apply Ascii.eqb_eq in S; subst a; discriminate W|reflexivity].
+  Qed.
+  Lemma split_app_nl : forall b, sp_eq (split_pred is_ws (b ++ String nl "")) (split_pred is_ws b).
+  Proof. induction b as [|a b IH]; [split; reflexivity|]. cbn [append]. apply sp_eq_cons. exact IH. Qed.
+
+  Lemma plain_app_l a b : plain_ws (a ++ b) -> plain_ws a.
+  Proof. intros H c I. apply H. rewrite chars_app. apply in_or_app. left. exact I. Qed.
+
+  (* last_line.split() on the stripped last line: the non-empty tokens of the hand model *)
+  Lemma split_ws_toks L : line_ok L -> plain_ws L ->
+    py_split_ws (py_strip L) = filter (fun s => negb (s =? "")%string) (toks L).
+  Proof.
+    intros (_ & b & Hb & H) P. rewrite split_strip. unfold py_split_ws.
+    change (fun s => negb (s =? "")%string) with str_truthy.
+    destruct H as [->| ->].
+    - destruct (toks_body b Hb) as [-> _]. rewrite <- (split_plain b Hb (plain_app_l _ _ P)).
+      apply sp_eq_filter; [apply split_pred_ne|apply split_pred_ne|apply split_app_nl].
+    - destruct (toks_body b Hb) as [_ ->]. rewrite <- (split_plain b Hb P). reflexivity.
+  Qed.
+
+  (* ---- get_sigmaGen ------------------------------------------------------------------------------------------------------- *)
+  Notation SLOOP := (gen_get_sigmaGen_loop1 tok_float).
+  Lemma sigma_loop1 x : forall ws, loopC SLOOP ws [x] = Ok (x :: first_floats tok_float 1 ws).
+  Proof.
+    induction ws as [|w ws IH]; [reflexivity|]. cbn [loopC first_floats]. unfold gen_get_sigmaGen_loop1 at 1.
+    unfold str_to_float. destruct (tok_float w) as [v|]; cbn [bind]; [|exact IH].
+    cbn [app zlen List.length Z.of_nat Pos.of_succ_nat Pos.succ Z.eqb Pos.eqb]. destruct ws; reflexivity.
+  Qed.
+  Lemma sigma_loop0 : forall ws, loopC SLOOP ws [] = Ok (first_floats tok_float 2 ws).
+  Proof.
+    induction ws as [|w ws IH]; [reflexivity|]. cbn [loopC first_floats]. unfold gen_get_sigmaGen_loop1 at 1.
+    unfold str_to_float. destruct (tok_float w) as [v|]; cbn [bind app]; [|exact IH].
+    cbn [zlen List.length Z.of_nat Z.eqb Pos.of_succ_nat Pos.succ Pos.eqb]. apply sigma_loop1.
+  Qed.
+  Lemma first_floats_le n : forall ws, (List.length (first_floats tok_float n ws) <= n)%nat.
+  Proof.
+    induction n as [|n IHn]; intros ws; [destruct ws; cbn; lia|].
+    induction ws as [|w ws IHw]; [cbn; lia|]. cbn [first_floats]. destruct (tok_float w); [cbn; specialize (IHn ws); lia|exact IHw].
+  Qed.
+
+  Theorem source_get_sigmaGen self pre L fuel :
+    fs (PATH_JETSCAPE_ self) = (pre ++ [L])%list -> pre <> [] -> Forall ends_nl pre -> line_ok L -> plain_ws L ->
+    (String.length L < fuel)%nat ->
+    gen_get_sigmaGen fs tok_float fuel self
+    = match first_floats tok_float 2 (filter (fun s => negb (s =? "")%string) (toks L)) with
+      | [s1; s2] => Ok (s1, s2)
+      | _ => Err IndexError
+      end.
+  Proof.
+    intros Hfs Hpre Hnl HL HP Hf. unfold gen_get_sigmaGen.
+    rewrite (source_get_last_line _ pre L fuel Hfs Hpre Hnl HL Hf). cbn [bind]. cbv zeta.
+    rewrite (split_ws_toks L HL HP), sigma_loop0. cbn [bind].
+    pose proof (first_floats_le 2 (filter (fun s => negb (s =? "")%string) (toks L))) as LE.
+    destruct (first_floats tok_float 2 _) as [|s1 [|s2 [|s3 r]]]; try reflexivity. cbn in LE. lia.
+  Qed.
+
+  (* ---- __init__, the getters ------------------------------------------------------------------------------------------------ *)
+  Lemma ws_free_sigmaGen : ws_free "sigmaGen".
+  Proof. intros c I. cbn in I. repeat (destruct I as [<-|I]; [reflexivity|]). contradiction. Qed.
+
+  Theorem source_init path pre L fuel :
+    fs path = (pre ++ [L])%list -> pre <> [] -> Forall ends_nl pre -> line_ok L -> (String.length L < fuel)%nat ->
+    gen_init fs fuel path
+    = if negb (contains ".dat" path) then Err OtherError
+      else if negb (has "sigmaGen" (toks L)) then Err ValueError
+      else Ok (JSelf path "hadron" "N_hadrons" [] [] A1 0).
+  Proof.
+    intros Hfs Hpre Hnl HL Hf. unfold gen_init. destruct (contains ".dat" path); cbn [negb bind]; [|reflexivity].
+    rewrite (source_get_last_line path pre L fuel Hfs Hpre Hnl HL Hf). cbn [bind].
+    rewrite (contains_strip "sigmaGen" L ws_free_sigmaGen ltac:(discriminate)), (contains_toks "sigmaGen" L pat_sigmaGen HL).
+    destruct (has "sigmaGen" (toks L)); reflexivity.
+  Qed.
+
+  Theorem source_getters self :
+    gen_get_particle_type self = Ok (particle_type_ self)
+    /\ gen_get_particle_type_defining_string self = Ok (particle_type_defining_string_ self)
+    /\ gen_event_end_lines self = Ok (event_end_lines_ self).
+  Proof. repeat split. Qed.
+
+  (* ---- the whole reader: Jetscape.__init__ calls JetscapeLoader(path), load with the keyword arguments, get_sigmaGen() --------------------- *)
+  Notation JLOAD := (jload tok_float tok_int pdg_valid pdg_charge usqrt).
+
+  Lemma jload_decompose flt (file : list (list string)) defstr sel :
+    JLOAD flt file defstr sel
+    = if negb (has "sigmaGen" (last file [])) then Err ValueError else
+      t <- jload_mid flt file defstr sel ;;
+      match first_floats tok_float 2 (filter (fun s => negb (s =? "")%string) (last file [])) with
+      | [s1; s2] => Ok {| j_events := fst (fst t); j_nevents := snd (fst t); j_counts := snd t;
+                          j_counts_2d := true; j_sigma := (s1, s2) |}
+      | _ => Err IndexError
+      end.
+  Proof.
+    unfold jload, jload_mid, jload_tail, line.
+    destruct (negb (has "sigmaGen" (last file []))); [reflexivity|].
+    destruct (jscan tok_int defstr file) as [c|e]; cbn [bind]; [|reflexivity].
+    destruct (jnum_skip sel c) as [ns|e]; cbn [bind]; [|reflexivity].
+    destruct (jnum_read sel c) as [nr|e]; cbn [bind]; [|reflexivity].
+    destruct (JREAD flt sel true _ _ _) as [st|e]; cbn [bind]; [|reflexivity].
+    destruct sel; [destruct (_ =? _)%Z|..]; cbn [bind fst snd]; reflexivity.
+  Qed.
+
+  (* the composition, written as Jetscape.__init__ makes the three calls (that constructor is not translated) *)
+  Definition gen_jetscape (fuel : nat) (path : string) (kw : kwargs)
+    : result (list (list particle) * Z * arr * (Q * Q)) :=
+    self <- gen_init fs fuel path ;;
+    r <- gen_load fs zint zint mkp o_apply fuel self kw ;;
+    sg <- gen_get_sigmaGen fs tok_float fuel (fst r) ;;
+    Ok (fst (fst (fst (snd r))), snd (fst (fst (snd r))), snd (fst (snd r)), sg).
+
+  Theorem source_jetscape path pre L kw sel flt pt fuel :
+    fs path = (pre ++ [L])%list -> pre <> [] -> Forall ends_nl pre -> lines_ok (pre ++ [L]) -> plain_ws L ->
+    trailer_last (pre ++ [L]) -> contains ".dat" path = true ->
+    (List.length (pre ++ [L]) < fuel)%nat -> (String.length L < fuel)%nat ->
+    forallb known_key (dict_keys kw) = true -> kw_sel kw sel -> flt_rel kw flt ->
+    check_ptype (assoc "particletype" kw) "hadron" = Ok pt ->
+    jscan tok_int (defstr_of pt) (map toks (pre ++ [L])) <> Err ValueError ->
+    match gen_jetscape fuel path kw with
+    | Ok (pl, nev, a, sg) =>
+      exists ld, JLOAD flt (map toks (pre ++ [L])) (defstr_of pt) sel = Ok ld
+                 /\ j_events ld = pl /\ j_nevents ld = nev /\ j_counts ld = arr_rows a /\ j_sigma ld = sg
+    | Err e => JLOAD flt (map toks (pre ++ [L])) (defstr_of pt) sel = Err e
+    end.
+  Proof.
+    intros Hfs Hpre Hnl Hok HP TL Hdat Hf1 Hf2 KK K F PT NV.
+    assert (HL : line_ok L) by (apply Forall_app in Hok; destruct Hok as [_ H]; inversion H; assumption).
+    assert (LL : last (map toks (pre ++ [L])) [] = toks L) by (rewrite map_app; cbn [map]; apply last_last).
+    rewrite jload_decompose, LL.
+    unfold gen_jetscape. rewrite (source_init path pre L fuel Hfs Hpre Hnl HL Hf2), Hdat. cbn [negb].
+    destruct (has "sigmaGen" (toks L)); cbn [negb bind]; [|reflexivity].
+    set (self0 := JSelf path "hadron" "N_hadrons" [] [] A1 0).
+    pose proof (source_load_model self0 (pre ++ [L]) kw sel flt pt fuel Hok TL Hfs Hf1 KK K F PT NV) as LM.
+    destruct (gen_load fs zint zint mkp o_apply fuel self0 kw) as [[s' [[[pl nev] a] ends]]|e]; cbn [bind]; [|rewrite LM; reflexivity].
+    destruct LM as (J & _ & _ & _ & ES). rewrite J. cbn [bind fst snd].
+    assert (PS : PATH_JETSCAPE_ s' = path) by (rewrite ES; reflexivity).
+    rewrite (source_get_sigmaGen s' pre L fuel ltac:(rewrite PS; exact Hfs) Hpre Hnl HL HP Hf2).
+    destruct (first_floats tok_float 2 _) as [|s1 [|s2 [|s3 r]]]; cbn [bind]; try reflexivity.
+    eexists. split; [reflexivity|]. cbn. repeat split.
+  Qed.
 End Src.
+
+(* ================================================================================================ joined lines *)
+(* tokens joined by single blanks or tabs *)
+Fixpoint join_seps (l : list string) (seps : list ascii) : string :=
+  match l with
+  | [] => ""
+  | [t] => t
+  | t :: ts => t ++ String (hd sp seps) (join_seps ts (tl seps))
+  end.
+Definition tok_ok (t : string) : Prop := no_char sp t = true /\ no_char tab t = true /\ no_char nl t = true.
+Definition sep_ok (c : ascii) : Prop := c = sp \/ c = tab.
+
+Lemma no_char_app' c a b : no_char c (a ++ b) = no_char c a && no_char c b.
+Proof. unfold no_char. rewrite chars_app, forallb_app. reflexivity. Qed.
+
+Lemma join_seps_facts : forall l seps, Forall tok_ok l -> Forall sep_ok seps ->
+  no_char nl (join_seps l seps) = true /\ tab2sp (join_seps l seps) = join sp l.
+Proof.
+  induction l as [|t l IH]; intros seps Hl Hs; [split; reflexivity|].
+  inversion Hl as [|? ? (T1 & T2 & T3) Hl']; subst.
+  destruct l as [|t' l']; [cbn [join_seps join]; split; [exact T3|apply replace_free; exact T2]|].
+  assert (Hs' : Forall sep_ok (tl seps)) by (destruct seps; [constructor|inversion Hs; assumption]).
+  assert (Hc : sep_ok (hd sp seps)) by (destruct seps; [left; reflexivity|inversion Hs; assumption]).
+  destruct (IH (tl seps) Hl' Hs') as [N J].
+  change (join_seps (t :: t' :: l') seps) with (t ++ String (hd sp seps) (join_seps (t' :: l') (tl seps))).
+  change (join sp (t :: t' :: l')) with (t ++ String sp (join sp (t' :: l'))).
+  split.
+  - rewrite no_char_app', T3. cbn [andb]. unfold no_char at 1. cbn [chars forallb].
+    fold (no_char nl (join_seps (t' :: l') (tl seps))). rewrite N.
+    destruct Hc as [-> | ->]; reflexivity.
+  - unfold tab2sp in *. rewrite replace_app, (replace_free _ _ t T2). f_equal.
+    cbn [str_replace_char]. rewrite J. destruct Hc as [-> | ->]; reflexivity.
+Qed.
+
+(* a line that is the join by single blanks or tabs of blank-, tab- and newline-free tokens (empty tokens allowed),
+   with or without its newline, is tokenised back into these tokens: the raw lines of Model/JetscapeDoc.v jrender *)
+Theorem toks_join (l : list string) (seps : list ascii) :
+  l <> [] -> Forall tok_ok l -> Forall sep_ok seps ->
+  toks (join_seps l seps ++ String nl "") = l /\ toks (join_seps l seps) = l
+  /\ line_ok (join_seps l seps ++ String nl "") /\ (join_seps l seps <> "" -> line_ok (join_seps l seps)).
+Proof.
+  intros Hne Hl Hs. destruct (join_seps_facts l seps Hl Hs) as [N J].
+  destruct (toks_body _ N) as [-> ->]. rewrite J.
+  assert (SJ : split_on sp (join sp l) = l).
+  { apply split_join; [exact Hne|]. apply forallb_forall. intros x Hx. rewrite Forall_forall in Hl. apply (Hl x Hx). }
+  repeat split; try exact SJ.
+  - destruct (join_seps l seps); discriminate.
+  - exists (join_seps l seps). split; [exact N|left; reflexivity].
+  - exact H.
+  - exists (join_seps l seps). split; [exact N|right; reflexivity].
+Qed.
+
+(* ================================================================================================ example *)
+(* non-vacuity: the four-event document of Proofs/C02_JetscapeExample.v written with tabs, last line without newline,
+   read with events=(1, 3) and a filter chain that keeps the charged particles: the hypotheses of [source_jetscape]
+   hold, and the regenerated reader computes what the hand model computes *)
+Definition exs_seps : list ascii := repeat "009"%char 12.
+Definition exs_pre : list string :=
+  map (fun l => join_seps l exs_seps ++ String "010"%char "") (removelast (jrender C02_JetscapeExample.exj_doc)).
+Definition exs_last : string := join_seps (jd_trailer C02_JetscapeExample.exj_doc) exs_seps.
+Definition exs_fs (p : string) : list string := (exs_pre ++ [exs_last])%list.
+Definition exs_kw : kwargs := [("events", VTuple [VInt 1; VInt 3]); ("filters", VOther)].
+Definition exs_apply (evs : list (list particle)) (fv : pyval) : result (list (list particle)) :=
+  Ok (map C02_JetscapeExample.exj_charged evs).
+
+Lemma exs_example :
+  let tf := C02_JetscapeExample.exj_tf in let ti := C02_JetscapeExample.exj_ti in
+  let pv := C02_JetscapeExample.exj_pv in let pc := C02_JetscapeExample.exj_pc in
+  let sq := C02_JetscapeExample.exj_sqrt in
+  exs_pre <> [] /\ Forall ends_nl exs_pre /\ lines_ok (exs_pre ++ [exs_last]) /\ plain_ws exs_last
+  /\ trailer_last (exs_pre ++ [exs_last])
+  /\ contains ".dat" "events.dat" = true
+  /\ forallb known_key (dict_keys exs_kw) = true /\ kw_sel exs_kw (SelRange 1 3)
+  /\ flt_rel exs_apply exs_kw (Some C02_JetscapeExample.exj_charged)
+  /\ check_ptype (assoc "particletype" exs_kw) "hadron" = Ok "hadron"
+  /\ jscan ti (defstr_of "hadron") (map toks (exs_pre ++ [exs_last])) <> Err ValueError
+  /\ map toks (exs_pre ++ [exs_last]) = jrender C02_JetscapeExample.exj_doc
+  /\ match gen_jetscape tf ti pv pc sq exs_fs exs_apply 100 "events.dat" exs_kw with
+     | Ok (pl, nev, a, sg) => Some (map (@List.length particle) pl, nev, a, sg)
+     | Err _ => None
+     end = Some ([0; 1]%nat, 2%Z, A2 [(2, 0); (3, 1)]%Z, ((3#2)%Q, (1#8)%Q)).
+Proof.
+  cbv zeta.
+  assert (TK : Forall (fun l => l <> [] /\ Forall tok_ok l) (jrender C02_JetscapeExample.exj_doc)).
+  { vm_compute jrender. repeat (constructor; [split; [discriminate|repeat (constructor; [repeat split; reflexivity|])]; constructor|]). constructor. }
+  assert (SO : Forall sep_ok exs_seps) by (repeat (constructor; [right; reflexivity|]); constructor).
+  split; [discriminate|]. split.
+  { unfold exs_pre. apply Forall_forall. intros x Hx. apply in_map_iff in Hx. destruct Hx as (l & <- & _). eexists. reflexivity. }
+  split.
+  { apply Forall_app. split.
+    - unfold exs_pre. apply Forall_forall. intros x Hx. apply in_map_iff in Hx. destruct Hx as (l & <- & Hl).
+      assert (Hl' : In l (jrender C02_JetscapeExample.exj_doc)) by (vm_compute in Hl |- *; tauto).
+      rewrite Forall_forall in TK. destruct (TK l Hl') as [N T]. apply (toks_join l exs_seps N T SO).
+    - constructor; [|constructor]. rewrite Forall_forall in TK.
+      destruct (TK (jd_trailer C02_JetscapeExample.exj_doc) ltac:(vm_compute; tauto)) as [N T].
+      apply (toks_join _ exs_seps N T SO). discriminate. }
+  split.
+  { intros c I W. vm_compute in I. repeat (destruct I as [<-|I]; [first [discriminate W|right; left; reflexivity]|]). contradiction. }
+  split.
+  { apply trailer_last_of_forall. vm_compute removelast. repeat (constructor; [vm_compute; reflexivity|]). constructor. }
+  split; [reflexivity|]. split; [reflexivity|]. split; [split; [reflexivity|lia]|].
+  split; [exists VOther; split; [reflexivity|intros d; reflexivity]|].
+  split; [reflexivity|]. split; [vm_compute; discriminate|]. split; vm_compute; reflexivity.
+Qed.
